@@ -460,21 +460,39 @@ EMPTYB = "make_right_side_slice_empty(%s, %s)" % (RI, BETA)
 
 
 def closure_spec(chk, fx):
+    from . import pathsig as PS
     chk.rule("CLOSURE", "items generated by closure()", 2)
     f = first_inst(fx, SA + "closure")
     cn = Canon(f)
-    items = []
-    for n in walk(f.body):
-        if A.is_call(n, q=P + "make_situation_idx"):
-            items.append(n)
+
+    def evs(cn_, node):
+        out = []
+        for n in walk(node):
+            if A.is_call(n, q=SA + "add_situation"):
+                out.append(PS.Event("add", cn_.c(n), n))
+            if n.get("k") == "CXXMemberCallExpr" and (n.get("callee") or {}).get("n") == "push_back" and \
+                    cn_.c(A.call_object(n)) == "closures[$1]":
+                out.append(PS.Event("memo", cn_.c(A.call_args(n)[0]), n))
+        return out
+    actual, nodes = PS.event_conditions(cn, f.body, events_of=evs, unroll=1, drop=_drop_noise)
+    items = {}
+    for (k, t), cond in actual.items():
+        if k == "add":
+            a = split_args(t)
+            if len(a) == 3 and a[1].startswith("make_situation_idx("):
+                items.setdefault(a[1], {})["add"] = (a, cond, nodes[(k, t)])
+        elif k == "memo" and t.startswith("make_situation_idx("):
+            items.setdefault(t, {})["memo"] = (cond, nodes[(k, t)])
     if not items:
-        chk.incomplete("closure(): no make_situation_idx call found")
+        chk.incomplete("closure(): no item construction (make_situation_idx) reaches add_situation / the memo")
+    NOT_TERM = ("%s.term" % SM, False)
+    INCOMPLETE = ("(%s.after < %s.r_elements)" % (INFO, RI), True)
+    NOT_MEMO = ("closures_analyzed.test($1)", False)
     kinds = set()
-    for n in items:
-        txt = cn.c(n)
-        g = cn.guards(n)
+    for txt, d in sorted(items.items()):
         args = split_args(split_args(txt)[0]) if split_args(txt) else []
-        site = A.site(f, n)
+        node = (d.get("add") or (None, None, None))[2] or d.get("memo", (None, None))[1]
+        site = A.site(f, node)
         if len(args) != 3:
             chk.incomplete("closure(): item construction not recognised: %s" % txt[:120])
         rule_c, dot_c, look_c = args
@@ -484,57 +502,52 @@ def closure_spec(chk, fx):
                                   "(nterm_rule_slices[sym.idx].start + i, i < n); found %s" % _short(rule_c)))
         if dot_c != "0":
             probs.append(("dot", "generated items start with the dot at position 0; found %s" % dot_c))
-        if not any(x in ("!%s.term" % SM,) for x in g):
-            probs.append(("nonterminal", "items are generated although the symbol after the dot is not known to be a "
-                                         "nonterminal"))
-        if not any(x in ("!(%s.after >= %s.r_elements)" % (INFO, RI), "(%s.after < %s.r_elements)" % (INFO, RI)) for x in g):
+        if "add" not in d:
+            probs.append(("sink-state", "the generated item is not added to the state being closed"))
+            cond = d["memo"][0]
+        else:
+            a, cond, _ = d["add"]
+            if a[0] != "$0" or a[2] != "false":
+                probs.append(("sink-state", "the item is added as add_situation(%s, ., %s) instead of (state, ., false)" % (a[0], a[2])))
+        if "memo" not in d:
+            probs.append(("sink-memo", "the generated item is not recorded in closures[item]"))
+        elif "add" in d and not PS.equivalent(d["memo"][0], d["add"][1]):
+            probs.append(("sink-memo-condition", "the item is recorded in the memo under another condition (%s) than it is "
+                                                 "generated (%s)" % (_short(PS.show(d["memo"][0])), _short(PS.show(d["add"][1])))))
+        if not PS.implies(cond, [NOT_TERM]):
+            probs.append(("nonterminal", "items are generated although the symbol after the dot is not known to be a nonterminal"))
+        if not PS.implies(cond, [INCOMPLETE]):
             probs.append(("complete-item", "items are generated for an item whose dot is at the end"))
         if look_c == "@i{0..term_count}":
             kinds.add("first")
-            if not any(x == "%s.test(@i{0..term_count})" % FIRSTB for x in g):
-                probs.append(("lookahead-first", "a lookahead t is generated without testing FIRST(beta).test(t) with "
-                                                 "beta = the suffix after the nonterminal (after + 1); guards: %s" %
-                              _short(" & ".join(g[-2:]))))
+            if not PS.implies(cond, [("%s.test(@i{0..term_count})" % FIRSTB, True)]):
+                probs.append(("lookahead-first", "a lookahead t is generated without FIRST(beta).test(t) holding, beta = the "
+                                                 "suffix after the nonterminal (after + 1); condition: %s" % _short(PS.show(cond))))
         elif look_c == "%s.t" % INFO:
             kinds.add("inherit")
-            if not any(x == EMPTYB or x.startswith("(" + EMPTYB + " &&") for x in g):
-                probs.append(("lookahead-inherit", "the item's own lookahead is propagated without testing that the "
-                                                   "suffix after the nonterminal (after + 1) is nullable; guards: %s" %
-                              _short(" & ".join(g[-2:]))))
+            if not PS.implies(cond, [(EMPTYB, True)]):
+                probs.append(("lookahead-inherit", "the item's own lookahead is propagated without the suffix after the "
+                                                   "nonterminal (after + 1) being nullable; condition: %s" % _short(PS.show(cond))))
         else:
             probs.append(("lookahead", "unexpected lookahead component %s" % _short(look_c)))
-        # sinks: added to the state being closed and recorded in the memo
-        sinks = {"add": False, "memo": False}
-        for m in walk(f.body):
-            if A.is_call(m, q=SA + "add_situation") and not A.contains(_replay_branch(f), m):
-                a = split_args(cn.c(m))
-                if len(a) == 3 and a[0] == "$0" and a[1] == txt and a[2] == "false":
-                    sinks["add"] = True
-            if m.get("k") == "CXXMemberCallExpr" and (m.get("callee") or {}).get("n") == "push_back":
-                if cn.c(A.call_object(m)) == "closures[$1]" and cn.c(A.call_args(m)[0]) == txt:
-                    sinks["memo"] = True
-        if not sinks["add"]:
-            probs.append(("sink-state", "the generated item is not added to the state being closed as a non-kernel item"))
-        if not sinks["memo"]:
-            probs.append(("sink-memo", "the generated item is not recorded in closures[item]"))
         if probs:
             for role, msg in probs:
                 chk.violation("CLOSURE", site, "CLOSURE:%s" % role, msg)
         else:
             chk.ok("CLOSURE", site, "items (rules of N, dot 0, %s)" % (
                 "t in FIRST(beta)" if look_c.startswith("@i") else "own lookahead when beta is nullable"))
-    if kinds != {"first", "inherit"}:
+    if kinds != {"first", "inherit"} and not chk.violations:
         chk.violation("CLOSURE", A.site(f), "CLOSURE:kinds",
                       "closure must generate lookaheads from FIRST(beta) and, when beta is nullable, the item's own "
                       "lookahead; found only %s" % sorted(kinds))
     # replay branch: memo hit adds exactly the recorded items
-    rb = _replay_branch(f)
-    adds = [m for m in walk(rb) if A.is_call(m, q=SA + "add_situation")] if rb else []
-    if len(adds) == 1 and split_args(cn.c(adds[0])) == ["$0", "closures[$1][@i{0..closures[$1].size()}]", "false"]:
-        chk.ok("CLOSURE", A.site(f, adds[0]), "memo hit replays every recorded item into the state")
+    replay = [(t, c) for (k, t), c in actual.items() if k == "add" and "closures[$1][" in t]
+    if len(replay) == 1 and split_args(replay[0][0]) == ["$0", "closures[$1][@i{0..closures[$1].size()}]", "false"] and \
+            PS.implies(replay[0][1], [("closures_analyzed.test($1)", True)]):
+        chk.ok("CLOSURE", A.site(f), "memo hit replays every recorded item into the state")
     else:
-        chk.violation("CLOSURE", A.site(f, rb or f.body), "CLOSURE:replay",
-                      "on a memo hit the recorded items are not all added to the state")
+        chk.violation("CLOSURE", A.site(f), "CLOSURE:replay",
+                      "on a memo hit the recorded items are not all added to the state (%s)" % [t[:80] for t, c in replay])
 
 
 def _replay_branch(f):
@@ -572,51 +585,59 @@ def _loopdep(guards):
     return tuple(sorted(g for g in guards if "@i{" in g or g.startswith("?") or g.startswith("!?")))
 
 
+def _drop_noise(atom):
+    """Atoms that do not belong to a template: verbose tests and the loop-bound tests of counted loops."""
+    return "verbose" in atom or (atom.startswith("(@i{") and " < " in atom) or (" < " in atom and atom.split(" < ")[0].startswith("(@i{"))
+
+
 def suffix_specs(chk, fx):
+    from . import pathsig as PS
     chk.rule("FIRSTSFX", "make_right_side_slice_first: scan of a right-side suffix", 3)
-    chk.rule("NULLSFX", "make_right_side_slice_empty: scan of a right-side suffix", 3)
+    chk.rule("NULLSFX", "make_right_side_slice_empty: scan of a right-side suffix", 2)
     S = "gi.right_sides[$0.r_idx][@i{$1..$0.r_elements}]"
+    T = "%s.term" % S
+    N = "make_nterm_empty(%s.idx)" % S
     # ---- FIRST of a suffix
     f = first_inst(fx, SA + "make_right_side_slice_first")
     cn = Canon(f)
-    loops = [n for n in (f.body.get("c") or []) if n.get("k") == "ForStmt"]
+    loops = [n for n in (f.body.get("c") or []) if n.get("k") in ("ForStmt", "WhileStmt")]
     if len(loops) != 1:
         chk.incomplete("make_right_side_slice_first: scan loop not found")
-    ev = [(k, t, _loopdep(g)) for k, t, g, n in _events(f, cn, loops[0]["body"])]
+    actual, nodes = PS.event_conditions(cn, loops[0]["body"], unroll=1, drop=_drop_noise)
     res = None
-    for k, t, g in ev:
+    for (k, t) in actual:
         if k == "call" and ".set(" in t:
             res = t.split(".set(")[0]
     if res is None:
         chk.incomplete("make_right_side_slice_first: set() of a terminal not found")
     want = {
-        ("call", "%s.set(%s.idx)" % (res, S), ("%s.term" % S,)): "a terminal contributes itself",
-        ("break", "", ("%s.term" % S,)): "the scan stops after a terminal",
-        ("call", "%s.add(make_nterm_first(%s.idx))" % (res, S), ("!%s.term" % S,)): "a nonterminal contributes its FIRST set",
-        ("break", "", ("!%s.term" % S, "!make_nterm_empty(%s.idx)" % S)): "the scan stops after a non-nullable nonterminal",
+        ("call", "%s.set(%s.idx)" % (res, S)): (PS.dnf([(T, True)]), "a terminal contributes itself"),
+        ("call", "%s.add(make_nterm_first(%s.idx))" % (res, S)): (PS.dnf([(T, False)]), "a nonterminal contributes its FIRST set"),
+        ("break", ""): (PS.dnf([(T, True)], [(T, False), (N, False)]),
+                        "the scan stops after a terminal or a non-nullable nonterminal, and only then"),
     }
-    _compare(chk, "FIRSTSFX", f, loops[0], ev, want, exits_only_extra=True)
-    # the result returned is the memo slot
+    PS.compare(chk, "FIRSTSFX", f, loops[0], actual, nodes, want, shorten=_short)
     # ---- nullable suffix
     f = first_inst(fx, SA + "make_right_side_slice_empty")
     cn = Canon(f)
-    loops = [n for n in (f.body.get("c") or []) if n.get("k") == "ForStmt"]
+    loops = [n for n in (f.body.get("c") or []) if n.get("k") in ("ForStmt", "WhileStmt")]
     if len(loops) != 1:
         chk.incomplete("make_right_side_slice_empty: scan loop not found")
-    ev = [(k, t, _loopdep(g)) for k, t, g, n in _events(f, cn, loops[0]["body"])]
+    actual, nodes = PS.event_conditions(cn, loops[0]["body"], unroll=1, drop=_drop_noise)
     want = {
-        ("return", "false", ("%s.term" % S,)): "a terminal makes the suffix non-nullable",
-        ("return", "false", ("!%s.term" % S, "!make_nterm_empty(%s.idx)" % S)): "a non-nullable nonterminal makes the "
-                                                                                  "suffix non-nullable",
+        ("return", "false"): (PS.dnf([(T, True)], [(T, False), (N, False)]),
+                              "a terminal or a non-nullable nonterminal makes the suffix non-nullable, nothing else does"),
     }
-    _compare(chk, "NULLSFX", f, loops[0], ev, want, exits_only_extra=True)
+    PS.compare(chk, "NULLSFX", f, loops[0], actual, nodes, want, shorten=_short)
     tail = (f.body.get("c") or [])[(f.body["c"].index(loops[0]) + 1):]
-    tl = [(k, t) for k, t, g, n in _events(f, cn, {"k": "CompoundStmt", "c": tail})]
-    if ("return", "true") in tl and any(k == "call" and t.startswith("right_side_slice_empty.set(") for k, t in tl):
+    tl, _ = PS.event_conditions(cn, {"k": "CompoundStmt", "c": tail}, unroll=1, drop=_drop_noise)
+    keys = set(tl)
+    if ("return", "true") in keys and any(k == "call" and t.startswith("right_side_slice_empty.set(") for k, t in keys) and \
+            PS.equivalent(tl[("return", "true")], PS.dnf([])):
         chk.ok("NULLSFX", A.site(f, tail[0]), "a suffix scanned to its end is recorded and reported nullable")
     else:
         chk.violation("NULLSFX", A.site(f), "NULLSFX:end", "after scanning the whole suffix the function does not record "
-                                                           "and return 'nullable' (%s)" % tl)
+                                                           "and return 'nullable' (%s)" % sorted(keys))
 
 
 def _compare(chk, rule, f, at, ev, want, exits_only_extra=False):
@@ -661,6 +682,7 @@ def _compare(chk, rule, f, at, ev, want, exits_only_extra=False):
 
 
 def fixpoint_spec(chk, fx):
+    from . import pathsig as PS
     chk.rule("FIXPOINT", "analyze_nterm_sets: nullable and FIRST of nonterminals as least fixpoints", 8)
     f = first_inst(fx, SA + "analyze_nterm_sets")
     cn = Canon(f)
@@ -669,54 +691,82 @@ def fixpoint_spec(chk, fx):
         chk.incomplete("analyze_nterm_sets: expected two fixpoint loops, found %d" % len(whiles))
     L = "gi.rule_infos[@i{0..rule_count}]"
     S = "gi.right_sides[%s.r_idx][@i{0..%s.r_elements}]" % (L, L)
+    EL = "nterm_empty.test(%s.l_idx)" % L
+    T = "%s.term" % S
+    ES = "nterm_empty.test(%s.idx)" % S
     # ---------------- nullable
-    ev = [(k, t, _loopdep(g)) for k, t, g, n in _events(f, cn, whiles[0]["body"])]
-    names = _local_names(ev)
+    actual, nodes = PS.event_conditions(cn, whiles[0]["body"], unroll=1, drop=_drop_noise)
+    names = _local_names([(k, t, ()) for (k, t) in actual])
     chg, allv = names.get("changed"), names.get("flag")
+    if chg is None or allv is None:
+        chk.incomplete("analyze_nterm_sets: 'changed' / 'all nullable' flags of the nullable fixpoint not recognised")
+    A_ = "?%s" % allv
     want = {
-        ("assign", "(?%s = false)" % chg, ()): "each round starts with changed = false",
-        ("continue", "", ("nterm_empty.test(%s.l_idx)" % L,)): "rules of an already nullable nonterminal are skipped",
-        ("assign", "(?%s = false)" % allv, ("!nterm_empty.test(%s.l_idx)" % L,
-                                            "(%s.term || !nterm_empty.test(%s.idx))" % (S, S))):
-            "a terminal or a not-yet-nullable nonterminal makes the right side non-nullable",
-        ("break", "", ("!nterm_empty.test(%s.l_idx)" % L, "(%s.term || !nterm_empty.test(%s.idx))" % (S, S))):
-            "the scan of the right side stops there",
-        ("call", "nterm_empty.set(%s.l_idx)" % L, ("!nterm_empty.test(%s.l_idx)" % L, "?%s" % allv)):
-            "a rule whose right side is all nullable makes its left side nullable",
-        ("assign", "(?%s = true)" % chg, ("!nterm_empty.test(%s.l_idx)" % L, "?%s" % allv)):
-            "a change requests another round",
+        ("assign", "(?%s = false)" % chg): (PS.dnf([]), "each round starts with changed = false"),
+        ("continue", ""): (PS.dnf([(EL, True)]), "rules of an already nullable nonterminal are skipped"),
+        ("assign", "(?%s = false)" % allv): (PS.dnf([(EL, False), (T, True)], [(EL, False), (T, False), (ES, False)]),
+                                             "a terminal or a not-yet-nullable nonterminal makes the right side non-nullable"),
+        ("break", ""): (PS.dnf([(EL, False), (T, True)], [(EL, False), (T, False), (ES, False)]),
+                        "the scan of the right side stops there"),
+        ("call", "nterm_empty.set(%s.l_idx)" % L): (PS.dnf([(EL, False), (A_, True)]),
+                                                   "a rule whose right side is all nullable makes its left side nullable"),
+        ("assign", "(?%s = true)" % chg): (PS.dnf([(EL, False), (A_, True)]), "a change requests another round"),
     }
-    _compare(chk, "FIXPOINT", f, whiles[0], ev, want)
+    # the flag test `?all_empty` is preceded by scan paths that do not constrain it: compare modulo the scan atoms
+    actual = {k: _project(v, keep=lambda a: True) for k, v in actual.items()}
+    _compare_mod(chk, "FIXPOINT", f, whiles[0], actual, nodes, want, relevant={
+        ("call", "nterm_empty.set(%s.l_idx)" % L): {EL, A_},
+        ("assign", "(?%s = true)" % chg): {EL, A_},
+    })
     # ---------------- FIRST
-    ev = [(k, t, _loopdep(g)) for k, t, g, n in _events(f, cn, whiles[1]["body"])]
-    names = _local_names(ev)
+    actual, nodes = PS.event_conditions(cn, whiles[1]["body"], unroll=1, drop=_drop_noise)
+    names = _local_names([(k, t, ()) for (k, t) in actual])
     chg = names.get("changed")
     acc = None
-    for k, t, g in ev:
+    for (k, t) in actual:
         if k == "call" and ".set(" in t:
             acc = t.split(".set(")[0]
-    if acc is None or not acc.startswith("?"):
-        chk.incomplete("analyze_nterm_sets: FIRST accumulator not recognised")
+    if acc is None or not acc.startswith("?") or chg is None:
+        chk.incomplete("analyze_nterm_sets: FIRST accumulator / changed flag not recognised")
     accdef = [n for n in walk(whiles[1]) if n.get("k") == "Var" and "?" + n["n"] == acc]
     if not accdef or cn.c(accdef[0]["init"]) != "nterm_first[%s.l_idx]" % L:
         chk.violation("FIXPOINT", A.site(f, whiles[1]), "FIXPOINT:accumulator",
                       "the FIRST accumulator of a rule does not start from the current FIRST set of its left side")
+    G = "(%s == nterm_first[%s.l_idx])" % (acc, L)
+    G2 = "(nterm_first[%s.l_idx] == %s)" % (L, acc)
+    gkey = G if any(G in a for v in actual.values() for c in v for a, p in c) else G2
     want = {
-        ("assign", "(?%s = false)" % chg, ()): "each round starts with changed = false",
-        ("call", "%s.set(%s.idx)" % (acc, S), ("%s.term" % S,)): "a terminal contributes itself",
-        ("break", "", ("%s.term" % S,)): "the scan stops after a terminal",
-        ("call", "%s.add(nterm_first[%s.idx])" % (acc, S), ("!%s.term" % S,)): "a nonterminal contributes its FIRST set",
-        ("break", "", ("!%s.term" % S, "!nterm_empty.test(%s.idx)" % S)): "the scan stops after a non-nullable nonterminal",
-        ("assign", "(nterm_first[%s.l_idx] = %s)" % (L, acc), ("!(%s == nterm_first[%s.l_idx])" % (acc, L),)):
-            "a grown set is stored",
-        ("assign", "(?%s = true)" % chg, ("!(%s == nterm_first[%s.l_idx])" % (acc, L),)): "a change requests another round",
+        ("assign", "(?%s = false)" % chg): (PS.dnf([]), "each round starts with changed = false"),
+        ("call", "%s.set(%s.idx)" % (acc, S)): (PS.dnf([(T, True)]), "a terminal contributes itself"),
+        ("call", "%s.add(nterm_first[%s.idx])" % (acc, S)): (PS.dnf([(T, False)]), "a nonterminal contributes its FIRST set"),
+        ("break", ""): (PS.dnf([(T, True)], [(T, False), (ES, False)]),
+                        "the scan stops after a terminal or a non-nullable nonterminal, and only then"),
+        ("assign", "(nterm_first[%s.l_idx] = %s)" % (L, acc)): (PS.dnf([(gkey, False)]), "a grown set is stored"),
+        ("assign", "(?%s = true)" % chg): (PS.dnf([(gkey, False)]), "a change requests another round"),
     }
-    _compare(chk, "FIXPOINT", f, whiles[1], ev, want)
-    # both loops iterate while changed, and nullable is complete before FIRST starts (sequential)
+    _compare_mod(chk, "FIXPOINT", f, whiles[1], actual, nodes, want, relevant={
+        ("assign", "(nterm_first[%s.l_idx] = %s)" % (L, acc)): {gkey},
+        ("assign", "(?%s = true)" % chg): {gkey},
+    })
     for w in whiles:
         c = cn.c(w["cond"])
         if not c.startswith("?"):
             chk.violation("FIXPOINT", A.site(f, w), "FIXPOINT:loop-condition", "fixpoint loop runs while %s" % c)
+
+
+def _project(dnf, keep):
+    return {frozenset((a, p) for a, p in c if keep(a)) for c in dnf}
+
+
+def _compare_mod(chk, rule, f, at, actual, nodes, want, relevant):
+    """pathsig.compare, but for the listed events only the listed atoms are compared (events after an inner scan are
+    reached through paths of the scan that do not constrain them)."""
+    from . import pathsig as PS
+    act = dict(actual)
+    for key, atoms in relevant.items():
+        if key in act:
+            act[key] = _project(act[key], lambda a: a in atoms)
+    PS.compare(chk, rule, f, at, act, nodes, want, shorten=_short)
 
 
 def _local_names(ev):
@@ -752,12 +802,18 @@ def goto_spec(chk, fx):
                               "the item moved over the symbol must keep its %s: expected %s, found %s" % (
                                   role, w.replace(INFO_T, "info"), a.replace(INFO_T, "info")))
     # the item is advanced only when it is not complete
-    g = cn.guards(items[0])
+    from . import pathsig as PS
     RI_T = "gi.rule_infos[%s.rule_info_idx]" % INFO_T
-    if "!(%s.after >= %s.r_elements)" % (INFO_T, RI_T) in g or "(%s.after < %s.r_elements)" % (INFO_T, RI_T) in g:
+
+    def evs(cn_, node):
+        return [PS.Event("item", cn_.c(n), n) for n in walk(node) if A.is_call(n, q=P + "make_situation_idx")]
+    loops = [n for n in walk(f.body) if n.get("k") == "CXXForRangeStmt" and A.contains(n, items[0])]
+    conds, _ = PS.event_conditions(cn, loops[0]["body"] if loops else f.body, events_of=evs, unroll=1, drop=_drop_noise)
+    cond = conds.get(("item", txt), set())
+    if cond and PS.implies(cond, [("(%s.after < %s.r_elements)" % (INFO_T, RI_T), True)]):
         chk.ok("GOTO", site, "only incomplete items are moved over the symbol")
     else:
-        chk.violation("GOTO", site, "GOTO:advance-complete-item", "a complete item is advanced (guards %s)" % g[-2:])
+        chk.violation("GOTO", site, "GOTO:advance-complete-item", "a complete item is advanced (condition: %s)" % PS.show(cond)[:200])
     # state identification: an existing state is reused iff its kernel equals the new kernel
     eq = [n for n in walk(f.body) if n.get("k") == "CXXOperatorCallExpr" and n.get("op") == "=="]
     txts = [cn.c(n) for n in eq]
@@ -780,23 +836,33 @@ def addsit_spec(chk, fx):
     cn = Canon(f)
     INFO_A = "make_situation_info($1)"
     RI_A = "gi.rule_infos[%s.rule_info_idx]" % INFO_A
-    pushes = [n for n in walk(f.body) if n.get("k") == "CXXMemberCallExpr" and (n.get("callee") or {}).get("n") ==
-              "push_back" and "situations_by_symbol" in cn.c(A.call_object(n))]
+    from . import pathsig as PS
+
+    def evs(cn_, node):
+        out = []
+        for n in walk(node):
+            if n.get("k") == "CXXMemberCallExpr" and (n.get("callee") or {}).get("n") == "push_back" and \
+                    "situations_by_symbol" in cn_.c(A.call_object(n)):
+                out.append(PS.Event("file", cn_.c(A.call_object(n)) + " <- " + cn_.c(A.call_args(n)[0]), n))
+        return out
+    conds, nodes = PS.event_conditions(cn, f.body, events_of=evs, unroll=1, drop=_drop_noise)
+    NEW = ("simple_states[$0].test($1)", False)
+    LT = "(%s.after < %s.r_elements)" % (INFO_A, RI_A)
     want = {
-        "states[$0].situations_by_symbol[gi.right_sides[%s.r_idx][%s.after].get_parse_table_idx()]" % (RI_A, INFO_A):
-            ("(%s.after < %s.r_elements)" % (INFO_A, RI_A), "an incomplete item waits for the symbol after its dot"),
-        "states[$0].situations_by_symbol[get_parse_table_idx(true, %s.t)]" % INFO_A:
-            ("!(%s.after < %s.r_elements)" % (INFO_A, RI_A), "a complete item reduces on its lookahead"),
+        "states[$0].situations_by_symbol[gi.right_sides[%s.r_idx][%s.after].get_parse_table_idx()] <- $1" % (RI_A, INFO_A):
+            ((LT, True), "an incomplete item waits for the symbol after its dot"),
+        "states[$0].situations_by_symbol[get_parse_table_idx(true, %s.t)] <- $1" % INFO_A:
+            ((LT, False), "a complete item reduces on its lookahead"),
     }
-    got = {cn.c(A.call_object(n)): (cn.guards(n), n) for n in pushes}
-    for col, (guard, why) in want.items():
-        if col in got and guard in got[col][0] and cn.c(A.call_args(got[col][1])[0]) == "$1":
-            chk.ok("ADDSIT", A.site(f, got[col][1]), why)
+    for col, (atom, why) in want.items():
+        c = conds.get(("file", col))
+        if c is not None and PS.equivalent(c, PS.dnf([NEW, atom])):
+            chk.ok("ADDSIT", A.site(f, nodes[("file", col)]), why)
         else:
             chk.violation("ADDSIT", A.site(f), "ADDSIT:%s" % why.split(" ")[1],
-                          "%s: expected a push of the item into %s under %s; found %s" % (
-                              why, col.replace(INFO_A, "info"), guard.replace(INFO_A, "info"),
-                              [(c.replace(INFO_A, "info"), g[0][-1:]) for c, g in got.items()]))
+                          "%s: expected the new item to be filed as %s exactly when %s%s; found %s" % (
+                              why, col.replace(INFO_A, "info"), "" if atom[1] else "not ", atom[0].replace(INFO_A, "info"),
+                              [(k[1].replace(INFO_A, "info")[:90], PS.show(v).replace(INFO_A, "info")[:120]) for k, v in conds.items()]))
     # membership test and kernel flag
     txt = [cn.c(n) for n in walk(f.body) if n.get("k") == "CXXMemberCallExpr" and (n.get("callee") or {}).get("n") in
            ("test", "set")]
